@@ -562,6 +562,7 @@ def main(argv):
     obs = [dict(o) for o in spec["obligations"] if tier in o["tiers"]]
     if only:
         obs = [o for o in obs if only in (o["harness"] + o.get("tag", ""))]
+        os.environ["VERIF_ONLY"] = only
     for o in obs:
         caps = plan.TIER_CAPS[tier]
         o.setdefault("cap_s", caps["cap_s"])
@@ -785,8 +786,8 @@ def handle_failure(pid, r, known, replay_dir, logdir, known_hits):
 
 
 def write_evidence(pid, tier, seed, spec, results, wall, violations, note=None):
-    if ALT_REPO or tier == "attempt":
-        return  # experiments never touch the committed evidence
+    if ALT_REPO or tier == "attempt" or os.environ.get("VERIF_ONLY"):
+        return  # experiments (other tree, attempt tier, --only subsets) never touch the committed evidence
     os.makedirs(os.path.join(VERIF, "evidence"), exist_ok=True)
     witnesses = [r for r in results if r.ob.get("expect_fail")]
     results = [r for r in results if not r.ob.get("expect_fail")]
